@@ -112,6 +112,13 @@ CHECKS.update({
     technique="Coq proof (permutation invariant, arg-min specification) + correspondence",
     ref="DESIGN.md section 7 C20"),
 })
+CHECKS.update({
+ "C19": dict(
+    text="PARTIAL proof (Coq, axiom-free): on a model of BaseART's params protocol - set_params(get_params) is a no-op, unknown names and values failing the class's validation are rejected, after set_params the attribute reads the new value and nothing else changed (same keys) - and on an ownership model of stored arrays: a model all of whose stored arrays are its own is unaffected by any later mutation of the caller's array (and a stored view is affected: the defect repaired in new_weight). Tied to /repo by the exact correspondence of get/set/attribute sequences on the elementary estimators. Everything else the property states is decided on the implementation: nested module__name exposure, constructed-vs-set_params twins, fit returns self, sklearn.clone, mutation of X / y after training, deepcopy / pickle at a random point then continued training of both, interleaved instances - for 12 estimator kinds.",
+    note="Trusted: Coq kernel, hand model + correspondence; sklearn.clone / copy.deepcopy / pickle are third-party and not modelled. Known findings: clone fails for FusionART, DeepARTMAP, SMART, TopoART, CVIART; TopoART/CVIART set_params does not reach the base module.",
+    technique="Coq proof on a protocol/ownership model + correspondence + implementation-side relations",
+    ref="DESIGN.md section 7 C19"),
+})
 NOT_YET = {}
 def main():
     props = [json.loads(l) for l in open(os.path.join(V, "properties.jsonl"))]
